@@ -29,7 +29,7 @@ def u16 (m : Mem) (p : Nat) : Nat := rd m p * 256 + rd m (p + 1)
 
 /-- `parseUint16(buf, sz, out, field)` -/
 def parseUint16 (s : St) (p sz : Nat) (field : String) : St × Option Nat :=
-  if sz < 2 then (s.tok s!"short:{field}", none) else (s.read p 2, some (u16 s.mem p))
+  if sz < 2 then (s.tok ("short:" ++ field), none) else (s.read p 2, some (u16 s.mem p))
 
 /-- one counted string whose *length field* gets overwritten by the terminator of the previous string (`zeroAt`):
 `parseUint16; sz -= 2; if (l > sz) fail; [*buf = 0;] buf += 2; <field> = buf; buf += l; sz -= l;`
@@ -38,7 +38,7 @@ def countstr (s : St) (p sz : Nat) (lenField badField : String) (terminatePrev :
   match parseUint16 s p sz lenField with
   | (s, none) => (s, none)
   | (s, some l) =>
-    if l > sz - 2 then (s.tok s!"bad:{badField}", none)
+    if l > sz - 2 then (s.tok ("bad:" ++ badField), none)
     else
       let s := if terminatePrev then s.zero p else s
       (s, some (p + 2 + l, sz - 2 - l))
@@ -56,7 +56,7 @@ def unpackSpecifier (s : St) (p sz : Nat) : St × Bool :=
   | (s, some (p, sz)) =>
   match countstr s p sz "REQ-HDRS_length" "REQ-HDRS" true with
   | (s, none) => (s, false)
-  | (s, some (p, sz)) => ((s.tok s!"left={sz}").zero p, true)
+  | (s, some (p, sz)) => ((s.tok ("left=" ++ toString sz)).zero p, true)
 
 /-- `htcpUnpackDetail(buf, sz)` -/
 def unpackDetail (s : St) (p sz : Nat) : St × Bool :=
@@ -68,7 +68,7 @@ def unpackDetail (s : St) (p sz : Nat) : St × Bool :=
   | (s, some (p, sz)) =>
   match countstr s p sz "CACHE-HDRS_length" "CACHE_HDRS" true with
   | (s, none) => (s, false)
-  | (s, some (p, sz)) => ((s.tok s!"dleft={sz}").zero p, true)
+  | (s, some (p, sz)) => ((s.tok ("dleft=" ++ toString sz)).zero p, true)
 
 def hdrSize : Nat := 4        -- sizeof(htcpHeader)
 def dataHdrSize : Nat := 8    -- sizeof(htcpDataHeader) = sizeof(htcpDataHeaderSquid)
@@ -90,50 +90,63 @@ def dataHdr (m : Mem) (p : Nat) (oldFormat : Bool) : DataHdr :=
   if oldFormat then ⟨u16 m p, b2 % 16, b2 / 16, (b3 / 64) % 2, b3 / 128, id⟩
   else ⟨u16 m p, b2 / 16, b2 % 16, (b3 / 2) % 2, b3 % 2, id⟩
 
-/-- `htcpHandleMsg(buf, sz, from)`; `matchQuery` = the cache has an outstanding query that a TST response with this msg_id
-from this sender answers (otherwise: no query was ever sent, `queried_id[]` and `queried_addr[]` hold their initial values).
-Second component = the value of the last "hsz = " message (none = not printed). -/
-def handleMsg (m : Mem) (len : Nat) (matchQuery : Bool) : St × Option Nat :=
-  let s : St := { mem := m }
-  if len < hdrSize then (s.tok "drop:short", none) else
-  let s := s.read 0 hdrSize
-  let hlen := u16 m 0
-  let major := rd m 2
-  let minor := rd m 3
-  if len ≠ hlen then (s.tok "drop:length", none) else
-  if major ≠ 0 then (s.tok "drop:major", none) else
-  let hsz := len - hdrSize
-  if hsz < dataHdrSize then (s.tok "drop:datahdr", none) else
-  let s := s.read hdrSize dataHdrSize
-  let h := dataHdr m hdrSize (minor = 0)
-  let s := s.tok s!"dlen={h.length}"
-  if h.opcode ≥ htcpEnd then (s.tok "drop:opcode", some hsz) else
-  let s := (((((s.tok s!"op={h.opcode}").tok s!"resp={h.response}").tok s!"f1={h.f1}").tok s!"rr={h.rr}").tok s!"id={h.msgId}")
-  if h.length < dataHdrSize then (s.tok "drop:dlen-small", some hsz) else
-  if hsz < h.length then (s.tok "drop:dlen-big", some hsz) else
-  let sz := h.length - dataHdrSize
-  let p := hdrSize + dataHdrSize
-  if h.opcode = 0 then (s.tok "nop", some sz)
-  else if h.opcode = 2 then (s.tok "mon", some sz)
-  else if h.opcode = 3 then (s.tok "set", some sz)
-  else if h.opcode = 1 then
-    if h.rr = 0 then
-      -- htcpHandleTstRequest
-      if sz = 0 then (s.tok "tst:empty", some sz)
-      else if h.f1 = 0 then (s, some sz)
-      else ((unpackSpecifier s p sz).1, some sz)
-    else
-      -- htcpHandleTstResponse
-      if ¬ matchQuery then
-        if h.msgId ≠ 0 then (s.tok "rsp:noid", some sz) else (s.tok "rsp:source", some sz)
-      else if h.f1 = 1 then (s.tok "rsp:f1", some sz)
-      else
-        let (s, ok) := unpackDetail (s.tok "rsp:hit") p sz
-        (if ok then s else s.tok "rsp:baddetail", some sz)
+/-- a `name=number` token -/
+def tk (k : String) (n : Nat) : String := k ++ "=" ++ toString n
+
+/-- `htcpHandleTstRequest(dhdr, buf, sz, from)` up to the end of the unpacker -/
+def tstRequest (s : St) (h : DataHdr) (p sz : Nat) : St :=
+  if sz = 0 then s.tok "tst:empty"
+  else if h.f1 = 0 then s
+  else (unpackSpecifier s p sz).1
+
+/-- `htcpHandleTstResponse(hdr, buf, sz, from)`; `matchQuery` = the cache has an outstanding query that a TST response with
+this msg_id from this sender answers (otherwise: no query was ever sent, `queried_id[]` and `queried_addr[]` hold their
+initial values, so only msg_id 0 gets past the first test and then fails the sender test) -/
+def tstResponse (s : St) (h : DataHdr) (p sz : Nat) (matchQuery : Bool) : St :=
+  if ¬ matchQuery then
+    if h.msgId ≠ 0 then s.tok "rsp:noid" else s.tok "rsp:source"
+  else if h.f1 = 1 then s.tok "rsp:f1"
   else
-    -- htcpHandleClr
-    if sz < 2 then (s.tok s!"short:reserved+reason_fields_(sz={sz})", some sz)
-    else ((unpackSpecifier (s.read p 2) (p + 2) (sz - 2)).1, some sz)
+    let r := unpackDetail (s.tok "rsp:hit") p sz
+    if r.2 then r.1 else r.1.tok "rsp:baddetail"
+
+/-- `htcpHandleClr(hdr, buf, sz, from)` up to the end of the unpacker: two octets (reserved, reason), then a specifier -/
+def clr (s : St) (p sz : Nat) : St :=
+  if sz < 2 then s.tok ("short:reserved+reason_fields_(sz=" ++ toString sz ++ ")")
+  else (unpackSpecifier (s.read p 2) (p + 2) (sz - 2)).1
+
+/-- the `switch (hdr.opcode)` of `htcpHandleMsg` -/
+def dispatch (s : St) (h : DataHdr) (p sz : Nat) (matchQuery : Bool) : St :=
+  if h.opcode = 0 then s.tok "nop"
+  else if h.opcode = 2 then s.tok "mon"
+  else if h.opcode = 3 then s.tok "set"
+  else if h.opcode = 1 then (if h.rr = 0 then tstRequest s h p sz else tstResponse s h p sz matchQuery)
+  else clr s p sz
+
+/-- the five level-3 messages that report the decoded data header -/
+def announce (s : St) (h : DataHdr) : St :=
+  ((((s.tok (tk "op" h.opcode)).tok (tk "resp" h.response)).tok (tk "f1" h.f1)).tok (tk "rr" h.rr)).tok (tk "id" h.msgId)
+
+/-- `htcpHandleMsg` from the opcode range check on; `hsz` = octets behind the 4-octet header.
+Second component = the value of the last "hsz = " message (none = not printed). -/
+def body (s : St) (h : DataHdr) (hsz : Nat) (matchQuery : Bool) : St × Option Nat :=
+  if h.opcode ≥ htcpEnd then (s.tok "drop:opcode", some hsz)
+  else if h.length < dataHdrSize then ((announce s h).tok "drop:dlen-small", some hsz)
+  else if hsz < h.length then ((announce s h).tok "drop:dlen-big", some hsz)
+  else (dispatch (announce s h) h (hdrSize + dataHdrSize) (h.length - dataHdrSize) matchQuery, some (h.length - dataHdrSize))
+
+/-- `htcpHandleMsg` from the data header on (`minor == 0` selects the old layout) -/
+def dataPart (s : St) (m : Mem) (hsz : Nat) (matchQuery : Bool) : St × Option Nat :=
+  if hsz < dataHdrSize then (s.tok "drop:datahdr", none)
+  else body ((s.read hdrSize dataHdrSize).tok (tk "dlen" (dataHdr m hdrSize (rd m 3 = 0)).length))
+        (dataHdr m hdrSize (rd m 3 = 0)) hsz matchQuery
+
+/-- `htcpHandleMsg(buf, sz, from)` -/
+def handleMsg (m : Mem) (len : Nat) (matchQuery : Bool) : St × Option Nat :=
+  if len < hdrSize then (St.tok { mem := m } "drop:short", none)
+  else if len ≠ u16 m 0 then ((St.read { mem := m } 0 hdrSize).tok "drop:length", none)
+  else if rd m 2 ≠ 0 then ((St.read { mem := m } 0 hdrSize).tok "drop:major", none)
+  else dataPart (St.read { mem := m } 0 hdrSize) m (len - hdrSize) matchQuery
 
 /-- the receive buffer after `recvfrom` (not cleared by squid: `stale` is what an earlier datagram left) -/
 def htcpMem (dg stale : Bytes) : Mem × Nat :=
